@@ -65,6 +65,7 @@ package forwarder
 //@   loop 0 invariant[C17] forall j int :: 0 <= j && j < idx ==> ks_i32[f.pausedProtocols][g.PausedProtocolIds[j]]
 //@   loop 0 invariant[C17c] forall k int trigger(ks_i32[f.pausedProtocols][k]) :: (forall j int :: 0 <= j && j < idx ==> g.PausedProtocolIds[j] != k) ==> !ks_i32[f.pausedProtocols][k]
 //@   loop 0 invariant[C17,C17c] (forall c int :: c != f.pausedProtocols ==> ks_i32[c] == old(ks_i32[c])) && ks_pair == old(ks_pair)
+//@   loop 1 invariant[C17] ccIdsOK(g)
 //@   loop 1 invariant[C17] forall j int :: 0 <= j && j < idx ==> ks_pair[f.pausedCrossChains][gcc(g, j).ProtocolId][gcc(g, j).CounterpartyId]
 //@   loop 1 invariant[C17c] forall p int, c string trigger(ks_pair[f.pausedCrossChains][p][c]) :: (forall j int :: 0 <= j && j < idx ==> !(gcc(g, j).ProtocolId == p && gcc(g, j).CounterpartyId == c)) ==> !ks_pair[f.pausedCrossChains][p][c]
 //@   loop 1 invariant[C17,C17c] forall c int :: c != f.pausedCrossChains ==> ks_pair[c] == old(ks_pair[c])
